@@ -21,6 +21,9 @@ META = {
     "assumptions": ["finite floats as reals (costs only compared / negated)"],
 }
 
+from engine import monitor as _monitor          # noqa: E402
+META["audit"] = lambda: _monitor.audit(('H1',))
+
 OPS = ["rebind", "setitem", "pop_append", "sort_inplace", "clear_extend", "reverse"]
 
 
